@@ -113,7 +113,7 @@ let handle scn (inp : string list) (impl : string) : string * string =
     let r = crc_ref l in
     let sp = if N.eqb (N.add (N.mul (n_of_hex hi) (n_of_int 256)) (n_of_hex lo)) r then "1" else "0" in
     (m, if sp = impl then "1" else "0")
-  | _ -> More.handle scn inp impl p_eq
+  | _ -> ignore p_eq; Registry.dispatch scn inp impl
 
 (* exhaustive comparison of the one-byte CRC transition against a binary dump
    (little-endian uint16 for state*256+byte, states lo..hi-1) *)
